@@ -490,7 +490,7 @@ struct CaseResult {
     sample: serde_json::Value,
 }
 
-fn run_case(w: &mut World, root: &Rng, index: usize, thorough: bool) -> CaseResult {
+fn run_case(w: &mut World, root: &Rng, index: usize, thorough: bool, script: Option<(Kind, Vec<u8>, Vec<Op>)>) -> CaseResult {
     let mut rng = root.fork(index as u64);
     let kind = match rng.below(10) {
         0 | 1 | 2 => Kind::One,
@@ -505,6 +505,13 @@ fn run_case(w: &mut World, root: &Rng, index: usize, thorough: bool) -> CaseResu
     let mut divs: Vec<u8> = (0..n)
         .map(|_| if rng.chance(1, 8) { *rng.pick(&[1u8, 6, 9, 17]) } else { *rng.pick(&[0u8, 2, 18]) })
         .collect();
+    let (kind, n, mut divs) = match &script {
+        Some((k, d, _)) => (*k, d.len(), d.clone()),
+        None => (kind, n, divs.clone()),
+    };
+    let _ = n;
+    let mut scripted: std::collections::VecDeque<Op> = script.map(|(_, _, ops)| ops.into()).unwrap_or_default();
+    let is_scripted = !scripted.is_empty();
     let mut used: BTreeMap<u8, usize> = BTreeMap::new();
     let mut res: Vec<ResourceAddress> = divs
         .iter()
@@ -521,7 +528,7 @@ fn run_case(w: &mut World, root: &Rng, index: usize, thorough: bool) -> CaseResu
     }
     let (pool, unit) = instantiate(w, kind, &res);
     let p = PoolCtx { kind, pool, unit, res, divs };
-    let len = if thorough { rng.range(6, 22) } else { rng.range(5, 14) } as usize;
+    let len = if is_scripted { scripted.len() } else if thorough { rng.range(6, 22) as usize } else { rng.range(5, 14) as usize };
     let mut steps: Vec<(Op, Out, Snapshot)> = Vec::new();
     let mut failures = Vec::new();
     let mut counts: BTreeMap<String, u64> = BTreeMap::new();
@@ -535,6 +542,7 @@ fn run_case(w: &mut World, root: &Rng, index: usize, thorough: bool) -> CaseResu
         let forced = pending.is_some();
         let op = match pending.take() {
             Some(o) => o,
+            None if is_scripted => scripted.pop_front().expect("scripted op"),
             None => {
                 let first = i == 0 && rng.chance(4, 5);
                 gen_op(&mut rng, &p, &st, first)
@@ -564,6 +572,10 @@ fn run_case(w: &mut World, root: &Rng, index: usize, thorough: bool) -> CaseResu
                 }
                 if !m.is_positive() {
                     fail("contribution minted no pool units".into());
+                }
+                if cs.iter().all(|c| c.is_zero()) {
+                    // multi-resource pool without units: the empty geometric mean is ONE (see Props/C41.v)
+                    cnt("empty_contribution_minted_pool_units");
                 }
                 if &(&after.s - &st.s) != m {
                     fail("minted units differ from supply change".into());
@@ -751,8 +763,23 @@ fn main() {
                     let mut v = Vec::new();
                     let mut i = t;
                     while i < cases {
-                        v.push(run_case(&mut w, &root, i, thorough));
+                        v.push(run_case(&mut w, &root, i, thorough, None));
                         i += threads;
+                    }
+                    if t == 0 {
+                        // scripted history replayed on every run: an empty contribution to a new
+                        // multi-resource pool mints 1.0 pool unit; the pool then has units but no
+                        // reserves and rejects contributions until the manager deposits
+                        let e18 = |k: u64| BigInt::from(k) * pow10(18);
+                        let ops = vec![
+                            Op::Contribute(vec![BigInt::zero(), BigInt::zero()]),
+                            Op::Contribute(vec![e18(5), e18(3)]),
+                            Op::Redeem(e18(1) / BigInt::from(2u32)),
+                            Op::Deposit(0, e18(10)),
+                            Op::Contribute(vec![e18(5), e18(3)]),
+                            Op::Redeem(e18(1) / BigInt::from(2u32)),
+                        ];
+                        v.push(run_case(&mut w, &root, cases, thorough, Some((Kind::Multi, vec![18, 2], ops))));
                     }
                     v
                 })
@@ -780,6 +807,7 @@ fn main() {
     report.floor("round_trips_checked", c / 2);
     report.floor("owed_strictly_between_0_and_reserve", c / 4);
     report.floor("contribute_with_change", c / 8);
+    report.floor("empty_contribution_minted_pool_units", 1);
     cw.write(&args.out, args.shards).unwrap();
     report.write(&args.out).unwrap();
 }
